@@ -21,7 +21,8 @@ TG1  == TFun(TBool, <<TBV(2)>>)
 TH2  == TFun(TReal, <<TBool, TReal>>)
 
 SortOf == [B |-> TBool, I |-> TInt, R |-> TReal, V2 |-> TBV(2), V3 |-> TBV(3), V1 |-> TBV(1),
-           S |-> TString, AII |-> TAII, AVB |-> TAVB, X |-> TInt]
+           S |-> TString, AII |-> TAII, AVB |-> TAVB, X |-> TInt,
+           V4 |-> TBV(4), V5 |-> TBV(5)]
 \* X = Int in index position of string operators (own pool)
 
 Str(s) == StrC(s)
@@ -184,7 +185,42 @@ Q2_(z) == {Quant(qk, vs, Op(c, <<inner, extra>>)) :
       \cup {Op("not", <<inner>>) : inner \in Q1_(z)}
 LQ_(z) == Q1_(z) \cup Q2_(z)
 
+
+\* ---------------------------------------------------------------------------
+\* Ground operator tables (C02): every non-UF signature applied to positional
+\* symbols v1..vn, paired with every tuple of values from ValPool.
+PosSym(j, key) == Sym((CASE j = 1 -> "v1_" [] j = 2 -> "v2_" [] j = 3 -> "v3_" [] OTHER -> "v4_") \o key, SortOf[key])
+K1 == ArrV(TInt, <<IntC(1), IntC(0), IntC(0)>>)
+K2 == ArrV(TInt, <<IntC(0), IntC(-1), IntC(2), IntC(1), IntC(1)>>)
+KF == ArrV(TBV(2), <<BoolC(FALSE)>>)
+ValPool ==
+    [B |-> {BoolC(TRUE), BoolC(FALSE)},
+     I |-> {IntC(k) : k \in -7..7},
+     X |-> {IntC(k) : k \in -3..4},
+     R |-> {RealC(q) : q \in {<<-2, 1>>, <<-1, 1>>, <<-1, 2>>, <<0, 1>>, <<1, 3>>, <<1, 2>>, <<1, 1>>, <<3, 2>>, <<2, 1>>}},
+     V1 |-> {BVC(k, 1) : k \in 0..1}, V2 |-> {BVC(k, 2) : k \in 0..3}, V3 |-> {BVC(k, 3) : k \in 0..7},
+     V4 |-> {BVC(k, 4) : k \in 0..15}, V5 |-> {BVC(k, 5) : k \in 0..31},
+     S |-> {Str(<<>>), Str(<<97>>), Str(<<98>>), Str(<<97, 98>>), Str(<<98, 97>>), Str(<<97, 97>>),
+            Str(<<48>>), Str(<<49, 48>>), Str(<<45, 53>>), Str(<<97, 98, 97>>), Str(<<32, 55>>)},
+     AII |-> {K0, K0s, K1, K2},
+     AVB |-> {KB, KF}]
+
+GSigs(wide) ==
+    {sg \in Sigs : sg.op \notin {"fn_f", "fn_g", "fn_h", "arrval_I", "arrval_V2"}
+                   /\ ~(Len(sg.as) = 3 /\ sg.as[1] \in {"I", "R"})}
+    \cup (IF wide THEN BVSigs("V4", 4) \cup BVSigs("V5", 5) ELSE {})
+
+MyGSigs(wide) == LET sq == SetToSeq(GSigs(wide)) IN {sq[i] : i \in {i \in 1..Len(sq) : i % NShards = Shard}}
+
+GroundCases(wide) ==
+    UNION { { [f |-> Mk(sg, [j \in 1..Len(sg.as) |-> PosSym(j, sg.as[j])], p),
+               asg |-> [j \in 1..Len(sg.as) |-> [n |-> PosSym(j, sg.as[j]).n, ty |-> SortOf[sg.as[j]], v |-> vals[j]]]]
+              : vals \in Tuples(sg.as, ValPool), p \in sg.ps }
+            : sg \in MyGSigs(wide) }
+
 Corpus == CASE Layer = "L1" -> L1_(0) [] Layer = "L2" -> L2_(0) [] Layer = "LQ" -> LQ_(0)
+            [] Layer = "G1" -> GroundCases(FALSE) [] Layer = "G1W" -> GroundCases(TRUE)
+            [] Layer = "VALS" -> {ValPool}
 
 VARIABLE done
 Init == done = FALSE /\ LET c == SetToSeq(Corpus)
